@@ -115,7 +115,12 @@ class SqlParseColumn(Column):
                 source_columns = [
                     ColumnQualifierTuple(
                         src_col.raw_name,
-                        src_col.parent.raw_name if src_col.parent else None,
+                        # parent can also be a SubQuery (e.g. count(*) over a derived table), which has no raw_name
+                        (
+                            src_col.parent.raw_name
+                            if isinstance(src_col.parent, Table)
+                            else None
+                        ),
                     )
                     for src_col in src_cols
                 ]
